@@ -78,6 +78,14 @@ Perturbations(m) ==
     \cup { P("attr-changed:" \o a, [m EXCEPT !.attrs[a] = OtherVal(k, a, m.attrs[a])]) : a \in DOMAIN m.attrs }
     \cup { P("attr-dropped:" \o a, [m EXCEPT !.attrs = RestrictTo(m.attrs, DOMAIN m.attrs \ {a})]) : a \in DOMAIN m.attrs \cap S.opt }
     \cup { P("attr-added:" \o a, [m EXCEPT !.attrs = [b \in DOMAIN m.attrs \cup {a} |-> IF b = a THEN V("plain", "added") ELSE m.attrs[b]]]) : a \in S.opt \ DOMAIN m.attrs }
+    \* an optional attribute that is present with the number 0 (resp. with the empty string) against the same message without it
+    \* (free-form attributes only: label, group, timeout, message, ...)
+    \cup { <<"attr-zero-vs-absent:" \o a,
+             [m EXCEPT !.attrs = [b \in DOMAIN m.attrs \cup {a} |-> IF b = a THEN V("numzero", "zero") ELSE m.attrs[b]]],
+             [m EXCEPT !.attrs = RestrictTo(m.attrs, DOMAIN m.attrs \ {a})]>> : a \in S.opt \ DOMAIN S.vocab }
+    \cup { <<"attr-empty-vs-absent:" \o a,
+             [m EXCEPT !.attrs = [b \in DOMAIN m.attrs \cup {a} |-> IF b = a THEN V("empty", "e") ELSE m.attrs[b]]],
+             [m EXCEPT !.attrs = RestrictTo(m.attrs, DOMAIN m.attrs \ {a})]>> : a \in S.opt \ DOMAIN S.vocab }
     \cup (IF S.text # "none" THEN { P("text-changed", [m EXCEPT !.text = W(CHOOSE w \in TextVocab(S) : w # m.text.s)]) } ELSE {})
     \cup { P("kind-changed:" \o k2, [m EXCEPT !.kind = k2]) : k2 \in IF n = 0 THEN SameShapeKinds(k) ELSE {} }
     \cup { P("child-name-changed:" \o ToString(i), [m EXCEPT !.children[i].attrs["name"] = V("plain", "othername")]) : i \in 1..n }
